@@ -1,2 +1,2 @@
 def fscLabel (r : Rat) (dfreq : Rat) : Int :=
-  (Py.trunc (r / dfreq))
+  (Py.imod (Py.trunc (r / dfreq)) 65536)
